@@ -23,6 +23,7 @@ type Result struct {
 	Skipped  bool // not executed (cost guard)
 	Timeout  bool // reference execution exceeded its step budget
 	Ret      string
+	Foreign  string // non-empty: a math/big operand (SetInt, SetRat, SetFloat) was changed by the call
 	Z        Obs
 	HasZ     bool
 	Yields   int
@@ -90,6 +91,25 @@ func parseFloat(s string, prec uint) *big.Float {
 		z = new(big.Float).SetPrec(prec)
 	}
 	return z
+}
+
+// bigImage is everything observable of a big.Int operand, including the words
+// of its backing array up to its capacity (a callee that borrows the spare
+// capacity changes the operand).
+func bigImage(x *big.Int) string {
+	b := x.Bits()
+	return fmt.Sprint(x.Sign(), len(b), cap(b), b[:cap(b)])
+}
+
+func floatImage(x *big.Float) string {
+	return fmt.Sprint(x.Text('p', 0), x.Prec(), x.Mode(), x.Acc(), x.Signbit())
+}
+
+func foreignDiff(before, after string) string {
+	if before == after {
+		return ""
+	}
+	return "before " + before + ", after " + after
 }
 
 func accS(a decimal.Accuracy) string { return fmt.Sprintf("acc%d", int(a)) }
@@ -213,11 +233,20 @@ func execOp(w *World, op *Op) (res Result) {
 	case "SetFloat64":
 		z.SetFloat64(math.Float64frombits(op.FB))
 	case "SetInt":
-		z.SetInt(parseBig(op.S))
+		x := parseBig(op.S)
+		img := bigImage(x)
+		defer func() { res.Foreign = foreignDiff(img, bigImage(x)) }()
+		z.SetInt(x)
 	case "SetRat":
-		z.SetRat(parseRat(op.S))
+		x := parseRat(op.S)
+		img := bigImage(x.Num()) + "/" + bigImage(x.Denom())
+		defer func() { res.Foreign = foreignDiff(img, bigImage(x.Num())+"/"+bigImage(x.Denom())) }()
+		z.SetRat(x)
 	case "SetFloat":
-		z.SetFloat(parseFloat(op.S, uint(op.P)))
+		x := parseFloat(op.S, uint(op.P))
+		img := floatImage(x)
+		defer func() { res.Foreign = foreignDiff(img, floatImage(x)) }()
+		z.SetFloat(x)
 	case "SetInf":
 		z.SetInf(op.M != 0)
 	case "SetMantExp":
